@@ -1,4 +1,5 @@
 import SpoxModel.Props.C01
+import SpoxModel.Props.C01Build
 /-! `#print axioms` for every property theorem of C01; parsed by ./check. -/
 #print axioms C01.valid_sound
 #print axioms C01.valid_sound_checked
@@ -20,3 +21,6 @@ import SpoxModel.Props.C01
 #print axioms C01.operands_are_contents_at_call
 #print axioms C01.aliasing_counterexample
 #print axioms C01.generated_sequence_parameters_exercised
+#print axioms C01Build.built_model_computes_dataflow
+#print axioms C01Build.built_models_written_differently_same_values
+#print axioms C01Build.built_model_independent_of_unused_inputs
